@@ -53,14 +53,14 @@ static void one_case(int kind, uint32_t S, int content, int mode, int bs, const 
         mc_log("  %s -> r=%d len=%u announced=%u frames=%ld\n", what, r, len, ann, cl_frames);
         if (check_upload(r, oi, len, ann, what)) break;
     }
-    if (OBS.fatal) mc_fail("fatal-error callback invoked", "%s", what);
+    if (OBS.fatal) mc_fail("safety:fatal-error callback invoked", "%s", what);
     snprintf(smp, sizeof smp, "%s -> %u bytes", what, len);
     mc_case_end(outcome(r, len), 1, smp);
 }
 
 static void run_object(int kind, uint32_t S, int tier)
 {
-    int maxdev = tier ? 2 : 1;
+    int maxdev = (tier || S <= 70) ? 2 : 1;          /* quick: two deviations for objects up to 70 bytes (needed e.g. for two partial acknowledges in a row) */
     for (int content = 0; content < 2; content++) {
         mc_case(6, kind, (int)S, content, 0, 0, 0);
         one_case(kind, S, content, 0, 0, 0, 0, 0, 0, 0);
@@ -88,7 +88,7 @@ static void run_object(int kind, uint32_t S, int tier)
                         int db[2] = { b0, -1 }, da[2] = { k0, -1 }, dbs[2] = { nb0, 0 }, blocks1 = 0;
                         mc_case(9, kind, (int)S, content, 1, bs, 1, b0, k0, nb0);
                         one_case(kind, S, content, 1, bs, db, da, dbs, 1, &blocks1);
-                        if (maxdev < 2 || S > 200) continue;
+                        if (maxdev < 2 || S > (tier ? 200u : 70u)) continue;
                         int sent1[64]; memcpy(sent1, cl_blk_sent, sizeof sent1);
                         int nblk1 = blocks1 > 64 ? 64 : blocks1;
                         for (int b1 = b0 + 1; b1 < nblk1 && b1 <= b0 + 2; b1++) for (int k1 = 0; k1 < sent1[b1]; k1++) {
